@@ -230,19 +230,25 @@ type EndOfIndexEntry struct {
 // Files whose names match one of the patterns have SkipWorktree cleared;
 // all other files have it set. This handles sparse-checkout dir switching
 // correctly: files moving into the active set are un-skipped.
+//
+// A pattern selects a directory by whole path components: A matches A and
+// A/x but not AB/x. Entries are replaced rather than modified, as they may be
+// shared with other copies of the index.
 func (i *Index) SkipUnless(patterns []string) {
-	for _, e := range i.Entries {
+	for pos, e := range i.Entries {
 		var include bool
 		for _, pattern := range patterns {
-			if strings.HasPrefix(e.Name, pattern) {
+			dir := strings.TrimSuffix(pattern, "/")
+			if e.Name == dir || strings.HasPrefix(e.Name, dir+"/") {
 				include = true
 				break
 			}
 		}
-		if include {
-			e.SkipWorktree = false
-		} else {
-			e.SkipWorktree = true
+		if e.SkipWorktree == !include {
+			continue
 		}
+		updated := *e
+		updated.SkipWorktree = !include
+		i.Entries[pos] = &updated
 	}
 }
